@@ -267,7 +267,11 @@ def canon(n, env=None, depth=0, subst=True):
     if k == 'ArraySubscriptExpr':
         return ('[]',) + tuple(rec(x) for x in c)
     if k == 'LambdaExpr':
-        return ('lambda', n.get('loc'))
+        return ('lambda',) + tuple(rec(x) for x in c)
+    if k == 'DeclStmt':
+        return ('DeclStmt',) + tuple(('var', x.get('name'), rec(x.get('init')) if isinstance(x.get('init'), dict) else None) for x in c if x.get('k') == 'VarDecl')
+    if n.get('slots'):
+        return (k,) + tuple(rec(x) for x in kids(n))
     return (k,) + tuple(rec(x) for x in c)
 
 
